@@ -1,17 +1,28 @@
-import Model.Eval
+import Lemmas.EvalRender
 import Generated.Facts
-/-! # C09 — expression evaluation follows operator precedence and never crashes -/
+/-! # C09 — expression evaluation follows operator precedence and never crashes
+
+Property theorems only.  The executable model is `Model/Eval.lean` (`Eval.parseLoop`, `processOperator`, `parseTop`,
+`evalNode`, `evaluate` … — the definitions the driver `drv_c09` runs against `eval.Evaluator` on every check); helper
+lemmas are in `Lemmas/EvalTotal.lean` (totality), `Lemmas/EvalTok.lean` (token machine, spine invariant),
+`Lemmas/EvalLex.lean` (lexing bridge) and `Lemmas/EvalRender.lean`.  The operator tables are
+`Facts.fixedOperators` / `Facts.floatOperators`, regenerated from the Go source on every run. -/
 namespace C09
 open Eval
 
-/-- the operator table the evaluator is run with (regenerated from the source on every check) -/
+/-- the operator table the evaluators are built with (regenerated from the source on every check) -/
 def stdOps : List Op := opsOf Facts.fixedOperators
+def floatOps : List Op := opsOf Facts.floatOperators
+
+/-- the parenthesis entries of the table -/
+def lpOp : Op := (stdOps.find? (fun o => o.sym == LP)).getD ⟨LP, 0, false, false⟩
+def rpOp : Op := (stdOps.find? (fun o => o.sym == RP)).getD ⟨RP, 0, false, false⟩
 
 /-- precedence of the first table entry with this symbol -/
 def precOf (ops : List Op) (s : String) : Option Nat := (ops.find? (fun o => o.sym == symBytes s)).map (·.prec)
 
 /-- clause "conventional precedence": `||` below `&&` below `==,!=` below `<,<=,>,>=` below `+,-` below `*,/,%`
-    below `^`, on the regenerated fixed and float tables; every one of them is a binary operator -/
+    below `^`, on the regenerated fixed and float tables -/
 theorem precedence_table :
     ∀ ops ∈ [opsOf Facts.fixedOperators, opsOf Facts.floatOperators],
       (∃ p1 p2 p3 p4 p5 p6 p7 : Nat,
@@ -33,5 +44,205 @@ theorem precedence_table :
       (precOf (opsOf Facts.floatOperators) "==").getD 0, (precOf (opsOf Facts.floatOperators) "<").getD 0,
       (precOf (opsOf Facts.floatOperators) "+").getD 0, (precOf (opsOf Facts.floatOperators) "*").getD 0,
       (precOf (opsOf Facts.floatOperators) "^").getD 0, by decide⟩
+
+/-- the fixed-point and floating-point evaluators use the same symbols, precedences and unary/binary capabilities, in
+    the same order (so every theorem about `stdOps` is a theorem about both) -/
+theorem float_table_eq : floatOps = stdOps := by decide
+
+/-- the symbol lookup on the regenerated table: at the first byte of an operator symbol `nextOperator` finds that
+    operator (the table order puts `!=` before `!`, `>=` before `>`, `<=` before `<`), unless the symbol is one of
+    `! < >` and the next byte is `=` -/
+theorem table_lookup (o : Op) (ho : o ∈ stdOps) (pre rest : Bytes) (hpre : NoE pre)
+    (hnb : o.sym = RP ∨ rest.head? ≠ some 61) : firstMatch stdOps pre (o.sym ++ rest) = some o := by
+  have hh := noE_hack pre hpre
+  simp only [stdOps, opsOf, Facts.fixedOperators, List.map, symBytes] at ho
+  simp [String.utf8EncodeChar] at ho
+  rcases ho with rfl | rfl | rfl | rfl | rfl | rfl | rfl | rfl | rfl | rfl | rfl | rfl | rfl | rfl | rfl | rfl | rfl <;>
+  · cases rest with
+    | nil =>
+      simp [firstMatch, stdOps, opsOf, Facts.fixedOperators, symBytes, String.utf8EncodeChar, Op.matchAt, MINUS, hh,
+        List.find?, List.isPrefixOf]
+    | cons c r =>
+      simp [RP] at hnb
+      simp [firstMatch, stdOps, opsOf, Facts.fixedOperators, symBytes, String.utf8EncodeChar, Op.matchAt, MINUS, hh,
+        List.find?, List.isPrefixOf]
+      try (have h61 : (61 == c) = false := by (simp; omega)
+           simp [h61])
+
+/-- the side conditions of the lexing layer hold for the regenerated table: no empty symbol, no symbol starts with a
+    blank, `=` starts a symbol, no unary operator starts with `=`, no symbol ends in `e` -/
+theorem table_lexable : LexTable stdOps where
+  ne := symsNonempty_of_all _ (by decide)
+  blank := by
+    intro c hc
+    simp [isScanSpace] at hc
+    rcases hc with ((h | h) | h) | h <;> subst h <;> decide
+  fm := table_lookup
+  eq61 := by decide
+  un61 := by decide
+  lastE := by decide
+
+/-- **parse ∘ render = tree** (clauses "conventional precedence", "left-to-right associativity", "whitespace never
+    changes the result", structure part), character level, for every expression built from atoms (non-empty runs of
+    printable ASCII bytes that start no operator and do not end in `e`), the binary operators of the table, signs/
+    negations before atoms and before parentheses, and parentheses, rendered with parentheses wherever precedence and
+    left associativity require them (`WF`) and with ANY runs of blank/tab/newline/return between tokens: the model
+    parser returns exactly the expression tree.  Restricted (hence `_partial`): no function calls, no exponent
+    literals `1e-2`, no variables containing operator bytes. -/
+theorem parse_render_partial (fns : List Bytes) (e : E) (hw : e.WF lpOp.prec) (hin : e.In stdOps)
+    (ws : Nat → Bytes) (hws : ∀ k, Blank (ws k)) :
+    parseTop stdOps fns (render ws 0 (e.toks lpOp rpOp)) = .ok (some e.toTree) :=
+  parseTop_render stdOps fns table_lexable lpOp rpOp (by decide) (by decide) (by decide) (by decide) (by decide)
+    e hw hin ws hws
+
+/-- the same for the table of the floating-point evaluator -/
+theorem parse_render_float_partial (fns : List Bytes) (e : E) (hw : e.WF lpOp.prec) (hin : e.In stdOps)
+    (ws : Nat → Bytes) (hws : ∀ k, Blank (ws k)) :
+    parseTop floatOps fns (render ws 0 (e.toks lpOp rpOp)) = .ok (some e.toTree) := by
+  rw [float_table_eq]; exact parse_render_partial fns e hw hin ws hws
+
+/-- the part of the full statement still open — function calls: for a function name `f` of the table and well-formed
+    argument expressions in any layout, `f ( a₁ , … , aₙ )` parses to the call node holding the raw argument text
+    (captured by parenthesis counting), and `NextArg` splits that text back into the renderings of the arguments
+    (which a fresh evaluator then parses by `parse_render_partial`).  Exponent literals such as `1e-2` as atoms are
+    the other missing piece.  Both are exercised on every run by the `wf` oracle and the `struct` differential
+    stream (nested calls, three layouts), not proved. -/
+def parse_render_Statement : Prop :=
+  ∀ (fns : List Bytes) (f : Bytes) (args : List E) (ws : Nat → Bytes),
+    f ∈ fns → AtomOK stdOps f → (∀ k, Blank (ws k)) → (∀ a ∈ args, a.WF lpOp.prec ∧ a.In stdOps) →
+    let texts := args.map (fun a => render ws 0 (a.toks lpOp rpOp))
+    parseTop stdOps fns (f ++ LP ++ joinComma texts ++ RP) = .ok (some (.func none f (joinComma texts))) ∧
+    (args ≠ [] → splitArgs ((joinComma texts).length + 1) (joinComma texts) = texts)
+
+/-- token level, any operator table: the two-stack machine (the model's own `pushOperand`, `pushEntry`, `closeParen`,
+    `pushBinary`, `finish`) run on the tokens of a well-formed expression ends with exactly its tree -/
+theorem parse_toks (lp rp : Op) (hlp : lp.sym = LP) (hlu : lp.un = false) (hrp : rp.sym = RP)
+    (e : E) (hw : e.WF lp.prec) : parseToks (e.toks lp rp) = .ok (some e.toTree) :=
+  Eval.parse_toks lp rp hlp hlu hrp e hw
+
+/-- clause "a sign or negation written before an operand applies to that operand only": `a o u b` parses to
+    `a o (u b)` and `u a o b` to `(u a) o b`, for atoms `a`, `b`, a binary operator `o` and a unary operator `u` of
+    the table, in every blank layout -/
+theorem unary_applies_to_operand_only (fns : List Bytes) (a b : Bytes) (o u : Op) (ha : AtomOK stdOps a)
+    (hb : AtomOK stdOps b) (ho : o ∈ stdOps) (hu : u ∈ stdOps) (huu : u.un = true) (hoL : o.sym ≠ LP)
+    (hoR : o.sym ≠ RP) (hp : lpOp.prec < o.prec) (ws : Nat → Bytes) (hws : ∀ k, Blank (ws k)) :
+    parseTop stdOps fns (render ws 0 [.opd a, .sym o, .sym u, .opd b]) =
+        .ok (some (.tree (.operand none a) (.operand (some u) b) (some o) none)) ∧
+    parseTop stdOps fns (render ws 0 [.sym u, .opd a, .sym o, .opd b]) =
+        .ok (some (.tree (.operand (some u) a) (.operand none b) (some o) none)) := by
+  constructor
+  · exact parse_render_partial fns (.bin o (.atom none a) (.atom (some u) b))
+      ⟨hoL, hoR, hp, trivial, huu, trivial, trivial⟩
+      ⟨ho, ⟨(by intro v hv; cases hv), ha⟩, ⟨(by intro v hv; cases hv; exact ⟨hu, huu⟩), hb⟩⟩ ws hws
+  · exact parse_render_partial fns (.bin o (.atom (some u) a) (.atom none b))
+      ⟨hoL, hoR, hp, huu, trivial, trivial, trivial⟩
+      ⟨ho, ⟨(by intro v hv; cases hv; exact ⟨hu, huu⟩), ha⟩, ⟨(by intro v hv; cases hv), hb⟩⟩ ws hws
+
+/-- clause "for every input string whatsoever … without panicking" (parser part): for EVERY byte list the model of
+    `parse`, of the final reduction loop and of the stack accesses never reaches a Go index-out-of-range and never
+    fails to advance; any table without an empty symbol -/
+theorem parse_no_panic (ops : List Op) (fns : List Bytes) (h : SymsNonempty ops) (s : Bytes) :
+    parse ops fns s ≠ .panic ∧ parseTop ops fns s ≠ .panic :=
+  ⟨Eval.parse_no_panic ops fns h s, parseTop_no_panic ops fns h s⟩
+
+/-- … in particular for the regenerated fixed and float tables -/
+theorem parse_no_panic_std (fns : List Bytes) (s : Bytes) :
+    parseTop stdOps fns s ≠ .panic ∧ parseTop floatOps fns s ≠ .panic := by
+  have h1 : SymsNonempty stdOps := symsNonempty_of_all _ (by decide)
+  refine ⟨parseTop_no_panic _ _ h1 s, ?_⟩
+  rw [float_table_eq]; exact parseTop_no_panic _ _ h1 s
+
+/-- clause "returns a value or an error": parsing every byte list yields a tree (or the empty stack) or an error -/
+theorem parse_total (fns : List Bytes) (s : Bytes) :
+    (∃ t, parseTop stdOps fns s = .ok t) ∨ parseTop stdOps fns s = .err := by
+  have := (parse_no_panic_std fns s).1
+  cases h : parseTop stdOps fns s with
+  | ok t => exact Or.inl ⟨t, rfl⟩
+  | err => exact Or.inr rfl
+  | panic => exact absurd h this
+
+/-- clause "in bounded time" (scan loop): every iteration of the loop of `parse` that continues does so with a
+    strictly shorter rest of the input, so the loop makes at most `len(expression)` iterations; the inner reduction
+    loops are bounded by the height of the operator stack (`reduceWhile_no_panic`, `finish_no_panic`: fuel = height
+    + 1 is never exhausted) and the argument capture by the rest of the input (`captureArgs_no_panic`) -/
+theorem scan_index_increases (ops : List Op) (fns : List Bytes) (hops : SymsNonempty ops) (pre : Bytes) (c : Nat)
+    (t : Bytes) (st : St) (hv : Bool) (un : Option Op) (p r : Bytes) (st' : St) (hv' : Bool) (un' : Option Op)
+    (h : scanStep ops fns pre c t st hv un = .cont p r st' hv' un') : r.length < (c :: t).length :=
+  scanStep_progress ops fns hops pre c t st hv un p r st' hv' un' h
+
+/-- the fuel of the inner loops (operator-stack height + 1, rest of the input + 1) is never exhausted -/
+theorem inner_loops_bounded (ops : List Op) (p : OpEntry → Bool) (st : St) (parens : Nat) (pre rest acc : Bytes) :
+    reduceWhile p (st.ops.length + 1) st ≠ .panic ∧ finish (st.ops.length + 1) st ≠ .panic ∧
+    captureArgs ops (rest.length + 1) parens pre rest acc ≠ .panic :=
+  ⟨reduceWhile_no_panic p _ st (Nat.lt_succ_self _), finish_no_panic _ st (Nat.lt_succ_self _),
+   captureArgs_no_panic ops _ parens pre rest acc (Nat.lt_succ_self _)⟩
+
+/-- evaluation of a parsed tree never dereferences a nil operator: every tree the parser returns is well-shaped, and
+    `evaluateOperand` (with symbolic operators) on a well-shaped tree does not panic as long as the evaluation of
+    function arguments (`ev`, a nested `Evaluate`) and variable substitution (`rv`) do not -/
+theorem eval_no_panic_partial (ops : List Op) (fns : List Bytes) (s : Bytes) (n : Node)
+    (h : parseTop ops fns s = .ok (some n)) (ev rv : Bytes → R Bytes) (hev : ∀ s, ev s ≠ .panic)
+    (hrv : ∀ s, rv s ≠ .panic) : evalNode ev rv n ≠ .panic :=
+  evalNode_no_panic ev rv hev hrv n (parseTop_ok_node ops fns s n h)
+
+/-- the full robustness statement for `Evaluate` with symbolic operators, still open: it needs that resolvers return
+    text without `$` (otherwise the Go loop in `replaceVariables` does not terminate either) and a bound relating the
+    nesting of `EvaluateNew` through function arguments to the input length -/
+def evaluate_no_panic_Statement : Prop :=
+  ∀ (fns : List Bytes) (resolve : Bytes → Bytes) (s : Bytes), (∀ n, (36 : Nat) ∉ resolve n) →
+    (∀ n, (resolve n).length ≤ n.length + 1) → evaluate stdOps fns (some resolve) (s.length + 1) s ≠ .panic
+
+/-- clause "evaluating the expression tree": evaluation of the tree of an expression applies each binary operator once
+    to the values of its two operands (left first) and each sign to the value of its operand — with operators that
+    bracket their arguments the value is the fully bracketed expression -/
+theorem eval_tree (ev : Bytes → R Bytes) (resolve : Option (Bytes → Bytes)) (e : E) (he : e.Evaluable) :
+    evalNode ev (replaceVariables resolve) e.toTree = .ok (some e.str) :=
+  Eval.eval_tree ev resolve e he
+
+/-- end to end, about the function the driver runs for the structure pass: `Evaluate` with symbolic operators on ANY
+    blank layout of a well-formed expression returns its fully bracketed form (so the value is determined by the
+    expression tree, not by the layout) -/
+theorem evaluate_render_partial (fns : List Bytes) (resolve : Option (Bytes → Bytes)) (e : E) (hw : e.WF lpOp.prec)
+    (hin : e.In stdOps) (he : e.Evaluable) (ws : Nat → Bytes) (hws : ∀ k, Blank (ws k)) (depth : Nat) :
+    evaluate stdOps fns resolve (depth + 1) (render ws 0 (e.toks lpOp rpOp)) = .ok e.str :=
+  evaluate_render stdOps fns resolve table_lexable lpOp rpOp (by decide) (by decide) (by decide) (by decide)
+    (by decide) e hw hin he ws hws depth
+
+/-- clause "whitespace never changes the result" (structure part): two layouts of the same expression evaluate alike -/
+theorem whitespace_irrelevant_partial (fns : List Bytes) (resolve : Option (Bytes → Bytes)) (e : E)
+    (hw : e.WF lpOp.prec) (hin : e.In stdOps) (he : e.Evaluable) (ws₁ ws₂ : Nat → Bytes) (h₁ : ∀ k, Blank (ws₁ k))
+    (h₂ : ∀ k, Blank (ws₂ k)) (d₁ d₂ : Nat) :
+    evaluate stdOps fns resolve (d₁ + 1) (render ws₁ 0 (e.toks lpOp rpOp)) =
+      evaluate stdOps fns resolve (d₂ + 1) (render ws₂ 0 (e.toks lpOp rpOp)) := by
+  rw [evaluate_render_partial fns resolve e hw hin he ws₁ h₁ d₁, evaluate_render_partial fns resolve e hw hin he ws₂ h₂ d₂]
+
+/-- `NextArg` splits at the first comma of an argument text whose first argument has no parentheses or commas (the
+    general statement — split at the first comma outside parentheses — is part of `parse_render_Statement`) -/
+theorem nextArg_split_partial (a b : Bytes) (ha : ∀ c ∈ a, c ≠ 40 ∧ c ≠ 41 ∧ c ≠ 44) :
+    nextArg (a ++ 44 :: b) = (a, b) := by
+  simp [nextArg, nextArgGo_flat a b ha]
+
+/-- clause "a reused Evaluator gives the same answers as a fresh one": `parse` resets both stacks, so the result of
+    `Evaluate` does not depend on what the evaluator held before -/
+theorem reuse_eq_fresh (ops : List Op) (fns : List Bytes) (resolve : Option (Bytes → Bytes)) (old : St) (s : Bytes) :
+    (evaluateReuse ops fns resolve old s).2 = (evaluateReuse ops fns resolve {} s).2 := rfl
+
+/-! non-vacuity: the hypotheses of `parse_render_partial` are met by `1 - -2 * (3 + 4)` -/
+example : ∃ e : E, e.WF lpOp.prec ∧ e.In stdOps ∧ e.toTree ≠ .nil := by
+  have hm : ⟨symBytes "-", 50, true, true⟩ ∈ stdOps := by decide
+  have ht : ⟨symBytes "*", 60, true, false⟩ ∈ stdOps := by decide
+  have hpl : ⟨symBytes "+", 50, true, true⟩ ∈ stdOps := by decide
+  have a1 : AtomOK stdOps [49] := ⟨by decide, by decide, by decide⟩
+  have a2 : AtomOK stdOps [50] := ⟨by decide, by decide, by decide⟩
+  have a3 : AtomOK stdOps [51] := ⟨by decide, by decide, by decide⟩
+  have a4 : AtomOK stdOps [52] := ⟨by decide, by decide, by decide⟩
+  refine ⟨.bin ⟨symBytes "-", 50, true, true⟩ (.atom none [49])
+      (.bin ⟨symBytes "*", 60, true, false⟩ (.atom (some ⟨symBytes "-", 50, true, true⟩) [50])
+        (.paren none (.bin ⟨symBytes "+", 50, true, true⟩ (.atom none [51]) (.atom none [52])))), ?_, ?_, ?_⟩
+  · simp only [E.WF, E.minPrec, geP, gtP, unOK]; decide
+  · refine ⟨hm, ⟨(by intro v hv; cases hv), a1⟩, ht, ⟨?_, a2⟩, ⟨(by intro v hv; cases hv), ?_⟩⟩
+    · intro v hv; cases hv; exact ⟨hm, rfl⟩
+    · exact ⟨hpl, ⟨(by intro v hv; cases hv), a3⟩, ⟨(by intro v hv; cases hv), a4⟩⟩
+  · simp [E.toTree]
 
 end C09
